@@ -10,9 +10,15 @@ func init() {
 				" || (fail(" + crypto + ".Decrypt($accessToken)) && ok(op.VerifyAccessToken(_, $accessToken, _)))",
 		}
 	}
-	guarP("C08", "op.getTokenIDAndSubject", []string{"ctx", "p", "accessToken"}, []string{"tokenResolved($r0, $r1, $accessToken)"}, readerReq("$p.Crypto()"))
-	guarP("C08", "op.getTokenIDAndSubjectForRevocation", []string{"ctx", "p", "accessToken"}, []string{"tokenResolved($r0, $r1, $accessToken)"}, readerReq("$p.Crypto()"))
-	guarP("C08", "op.getTokenIDAndClaims", []string{"ctx", "p", "accessToken"}, []string{"tokenResolved($r0, $r1, $accessToken)"}, readerReq("$p.Crypto()"))
+	// "didTryToken" is an event (never invalidated): the provider looked at the presented string as one of its own access tokens
+	tried := func(crypto string) []string {
+		return []string{"ok(" + crypto + ".Decrypt($accessToken)) || fail(" + crypto + ".Decrypt($accessToken))"}
+	}
+	for _, fn := range []string{"op.getTokenIDAndSubject", "op.getTokenIDAndSubjectForRevocation", "op.getTokenIDAndClaims"} {
+		allGuars = append(allGuars, &Guar{Prop: "C08", Fn: fn, P: []string{"ctx", "p", "accessToken"},
+			Facts: []string{"tokenResolved($r0, $r1, $accessToken)", "didTryToken($accessToken)"}, Proof: readerReq("$p.Crypto()"),
+			FailFacts: []string{"didTryToken($accessToken)"}, FailProof: tried("$p.Crypto()")})
+	}
 	obs := []Ob{
 		{ID: "E1.userinfo.provider", Fn: "op.Userinfo", Kind: "call", Pat: "httphelper.MarshalJSON(_, $info)", Max: 1,
 			Why: "claims are returned only for a token the provider resolved and the storage accepted",
@@ -35,10 +41,10 @@ func init() {
 			Req: []string{"ok(_.RevokeToken(_, _, _, $clientID))", "def($clientID, op.ParseTokenRevocationRequest(__), 2)", "ok(op.ParseTokenRevocationRequest(__))"}},
 		{ID: "E1.revoke.provider.resolves-token", Fn: "op.Revoke", Kind: "call", Pat: "_.RevokeToken(_, $token, __)", Max: 1,
 			Why: "the type hint is only a hint: unless the storage recognised the token as a refresh token, the access-token resolver must have run before the storage is asked to revoke",
-			Req: []string{"called(op.getTokenIDAndSubjectForRevocation(__)) || def($token, $tid)"}},
-		{ID: "E1.revoke.legacy-server.resolves-token", Fn: "op.(*LegacyServer).Revocation", P: []string{"s", "ctx", "r"}, Kind: "call", Pat: "_.RevokeToken(_, $r.Data.Token, __)", Max: 1,
+			Req: []string{"didOk(GetRefreshTokenInfo) || didTryToken(_)"}},
+		{ID: "E1.revoke.legacy-server.resolves-token", Fn: "op.(*LegacyServer).Revocation", P: []string{"s", "ctx", "r"}, Kind: "call", Pat: "_.RevokeToken(__)", Max: 1,
 			Why: "sibling of op.Revoke",
-			Req: []string{"called(op.getTokenIDAndSubjectForRevocation(__)) || eq($r.Data.Token, $tid)"}},
+			Req: []string{"didOk(GetRefreshTokenInfo) || didTryToken(_)"}},
 		{ID: "E1.revoke.legacy-server", Fn: "op.(*LegacyServer).Revocation", P: []string{"s", "ctx", "r"}, Kind: "ret ok", Max: 1,
 			Req: []string{"ok(_.RevokeToken(_, _, _, $r.Client.GetID()))"}},
 		// logout
